@@ -9,6 +9,9 @@
     catalogue's range at the source" is therefore part of the domain.
     ⇒ `closed_conversion_for_any_wcs`: C01's `conversion_inverse` for the code's own ellipse
     conversions over every invertible WCS.
+  * C17: `err_ra` / `err_dec` of `fitting.errors` (model `errRaDec`) with `gcd` := C17's great-circle distance:
+    `err_ra` is the sky angle subtended by the RA displacement at the source's declination —
+    sin(err_ra/2) = |cos δ|·|sin(Δα/2)|, the factor cos δ exactly once — and `err_dec` is |Δδ|.
   * C04: the Jacobian handed to the optimiser is the true derivative of the very function whose
     residual is zero at the truth (`Gen.C04.gauss = Gen.C01.gauss`, both regenerated from the same
     source function).
@@ -16,6 +19,7 @@
 import Aegean.Properties.C01
 import Aegean.Properties.C16
 import Aegean.Properties.C04
+import Aegean.Properties.C17
 
 set_option linter.unusedVariables false
 
@@ -71,6 +75,81 @@ theorem closed_conversion_for_any_wcs (W : Aegean.Model.C16.Wcs ℝ) {pdom sdom 
   let h := conversion_inverse (oracleOf W) (domOf W sdom) (inverseLaws_of_wcsLaws W L) ln2 hln2 fuel area
     xmin ymin t hdom hra hpa1 hpa2 hminor
   ⟨h.1, h.2.1, h.2.2.1, h.2.2.2.1, h.2.2.2.2.1⟩
+
+/-! ### the position errors are sky angles (C17) -/
+
+open Real in
+/-- the haversine distance between two points of EQUAL declination δ whose right ascensions differ by Δα:
+    `sin(g/2) = |cos δ|·|sin(Δα/2)|` (g, δ, Δα in degrees).  `g` is whatever `angle_tools.gcd` returns (either branch). -/
+theorem gcd_equal_dec (ra1 d ra2 g : ℝ) (h : Aegean.Properties.C17.IsGcd ra1 d ra2 d g) :
+    sin (g * (π / 180) / 2) = |cos (d * (π / 180))| * |sin ((ra2 - ra1) * (π / 180) / 2)| := by
+  have hg : g = Gen.C17.gcdNear ra1 d ra2 d := by
+    rw [Aegean.Properties.C17.isGcd_iff] at h
+    rw [h, Aegean.Properties.C17.gcdNear_eq_angle]; rfl
+  rw [hg, Aegean.Properties.C17.gcdNear_eq_hand]
+  simp only [Aegean.Model.C17.gcdNearHand, Aegean.Model.C17.havAHand, R.real_npow, R.real_sin, R.real_cos, R.real_ofNat,
+    R.real_radians, R.real_degrees, R.real_asin, Aegean.C17.real_min', R.real_sqrt, Aegean.C01Real.r_add,
+    Aegean.C01Real.r_sub, Aegean.C01Real.r_mul, Aegean.C01Real.r_div, Nat.cast_ofNat, Nat.cast_one]
+  have hx : sin ((d - d) * (π / 180) / 2) ^ 2 + cos (d * (π / 180)) * cos (d * (π / 180)) * sin ((ra2 - ra1) * (π / 180) / 2) ^ 2
+      = (|cos (d * (π / 180))| * |sin ((ra2 - ra1) * (π / 180) / 2)|) ^ 2 := by
+    rw [sub_self, zero_mul, zero_div, sin_zero, mul_pow, sq_abs, sq_abs]; ring
+  rw [hx, sqrt_sq (by positivity)]
+  have hle : |cos (d * (π / 180))| * |sin ((ra2 - ra1) * (π / 180) / 2)| ≤ 1 := by
+    have h1 := abs_cos_le_one (d * (π / 180))
+    have h2 := abs_sin_le_one ((ra2 - ra1) * (π / 180) / 2)
+    calc _ ≤ 1 * 1 := mul_le_mul h1 h2 (abs_nonneg _) (by norm_num)
+      _ = 1 := by norm_num
+  rw [min_eq_right hle]
+  have hpi := pi_ne_zero
+  have : 2 * arcsin (|cos (d * (π / 180))| * |sin ((ra2 - ra1) * (π / 180) / 2)|) * (180 / π) * (π / 180) / 2
+      = arcsin (|cos (d * (π / 180))| * |sin ((ra2 - ra1) * (π / 180) / 2)|) := by field_simp
+  rw [this, sin_arcsin (by linarith [mul_nonneg (abs_nonneg (cos (d * (π / 180)))) (abs_nonneg (sin ((ra2 - ra1) * (π / 180) / 2)))]) hle]
+
+open Real in
+/-- the distance between two points of EQUAL right ascension is the difference of the declinations -/
+theorem gcd_equal_ra (ra d1 d2 g : ℝ) (hd : |d2 - d1| ≤ 180) (h : Aegean.Properties.C17.IsGcd ra d1 ra d2 g) :
+    g = |d2 - d1| := by
+  have hg : g = Gen.C17.gcdNear ra d1 ra d2 := by
+    rw [Aegean.Properties.C17.isGcd_iff] at h
+    rw [h, Aegean.Properties.C17.gcdNear_eq_angle]; rfl
+  rw [hg, Aegean.Properties.C17.gcdNear_eq_hand]
+  simp only [Aegean.Model.C17.gcdNearHand, Aegean.Model.C17.havAHand, R.real_npow, R.real_sin, R.real_cos, R.real_ofNat,
+    R.real_radians, R.real_degrees, R.real_asin, Aegean.C17.real_min', R.real_sqrt, Aegean.C01Real.r_add,
+    Aegean.C01Real.r_sub, Aegean.C01Real.r_mul, Aegean.C01Real.r_div, Nat.cast_ofNat, Nat.cast_one]
+  set t := |d2 - d1| * (π / 180) / 2 with ht
+  have ht0 : 0 ≤ t := by positivity
+  have ht1 : t ≤ π / 2 := by
+    rw [ht]; have := pi_pos; nlinarith
+  have hx : sin ((d2 - d1) * (π / 180) / 2) ^ 2 + cos (d1 * (π / 180)) * cos (d2 * (π / 180)) * sin ((ra - ra) * (π / 180) / 2) ^ 2
+      = (sin t) ^ 2 := by
+    rw [sub_self ra, zero_mul, zero_div, sin_zero]
+    have : sin t ^ 2 = sin ((d2 - d1) * (π / 180) / 2) ^ 2 := by
+      rcases abs_choice (d2 - d1) with h | h
+      · rw [ht, h]
+      · rw [ht, h, show -(d2 - d1) * (π / 180) / 2 = -((d2 - d1) * (π / 180) / 2) by ring, sin_neg, neg_sq]
+    rw [this]; ring
+  have hs0 : 0 ≤ sin t := sin_nonneg_of_nonneg_of_le_pi ht0 (by linarith [pi_pos])
+  rw [hx, sqrt_sq hs0, min_eq_right (sin_le_one t), arcsin_sin (by linarith) ht1, ht]
+  have hpi := pi_ne_zero
+  field_simp
+
+/-- **err_ra_is_sky_angle / err_dec**: `fitting.errors`' position errors (model `errRaDec`, any `pix2sky`, `gcd` any
+    function returning what `angle_tools.gcd` returns): `err_ra` is the great-circle angle subtended by the RA
+    displacement at the source's declination — `sin(err_ra/2) = |cos δ|·|sin(Δα/2)|`: the factor cos δ exactly ONCE,
+    so no further cos(dec) belongs on it — and `err_dec = |Δδ|`. -/
+theorem err_ra_dec_are_sky_angles (gcd : ℝ → ℝ → ℝ → ℝ → ℝ) (pix2sky : ℝ → ℝ → ℝ × ℝ) (xo yo ex ey : ℝ)
+    (hgcd : ∀ a b c d, Aegean.Properties.C17.IsGcd a b c d (gcd a b c d))
+    (hd : |(pix2sky (xo + ex) (yo + ey)).2 - (pix2sky xo yo).2| ≤ 180) :
+    let ref := pix2sky xo yo
+    let off := pix2sky (xo + ex) (yo + ey)
+    let e := errRaDec gcd pix2sky xo yo ex ey
+    Real.sin (e.1 * (Real.pi / 180) / 2)
+        = |Real.cos (ref.2 * (Real.pi / 180))| * |Real.sin ((off.1 - ref.1) * (Real.pi / 180) / 2)| ∧
+      e.2 = |off.2 - ref.2| := by
+  intro ref off e
+  constructor
+  · exact gcd_equal_dec ref.1 ref.2 off.1 _ (hgcd _ _ _ _)
+  · exact gcd_equal_ra ref.1 ref.2 off.2 _ hd (hgcd _ _ _ _)
 
 /-- C04 differentiates the same function C01's residual is built from -/
 theorem c04_gauss_is_c01_gauss (x y amp xo yo sx sy th : ℝ) :
